@@ -248,38 +248,46 @@ Section Assign.
 
   Definition assign_subscript (v s value : expr) : res expr :=
     let! v' := tr n v in
-    let s' := match s with Slice a b c => convert_slice a b c | _ => s end in   (* the index is not rewritten *)
+    let! s1 := tr n s in
+    let s' := match s1 with Slice a b c => convert_slice a b c | _ => s1 end in
     ret (call (Attribute v' "__setitem__") [s'; value]).
 
   Definition assign_attribute (v : expr) (a : ident) (value : expr) : res expr :=
     let! v' := tr n v in ret (call (Name "setattr") [v'; cstr a; value]).
 
+  (* the loop of assign_tuple_list; [f] is assign_auto itself *)
+  Section PatternGo.
+    Variable f : path -> expr -> expr -> res (list expr).
+    Variable tmp : expr.
+    Variable len : Z.
+    Variable p : path.
+    Fixpoint pattern_go (elts : list expr) (index : nat) (starred : bool) {struct elts} : res (list expr) :=
+      match elts with
+      | [] => ret []
+      | t :: r =>
+          let idx := Z.of_nat index in
+          match t with
+          | Starred t' =>
+              if starred then fail ESyntax
+              else
+                let upper := (idx - len + 1)%Z in
+                let sub := call (Name "list")
+                             [Subscript tmp (Slice (Some (cint idx)) (if Z.eqb upper 0 then None else Some (cint upper)) None)] in
+                let! a := f (index :: p) t' sub in
+                let! b := pattern_go r (S index) true in ret (a ++ b)
+          | _ =>
+              let sub := Subscript tmp (cint (if starred then idx - len else idx)%Z) in
+              let! a := f (index :: p) t sub in
+              let! b := pattern_go r (S index) starred in ret (a ++ b)
+          end
+      end.
+  End PatternGo.
+
   Fixpoint assign_auto (p : path) (target value : expr) {struct target} : res (list expr) :=
     let pattern := fun (elts : list expr) =>
-      let tmp := Name (ol "assign" (path_str p)) in
-      let len := Z.of_nat (length elts) in
-      let! rest :=
-        (fix go (elts : list expr) (index : nat) (starred : bool) : res (list expr) :=
-           match elts with
-           | [] => ret []
-           | t :: r =>
-               let idx := Z.of_nat index in
-               match t with
-               | Starred t' =>
-                   if starred then fail ESyntax
-                   else
-                     let upper := (idx - len + 1)%Z in
-                     let sub := call (Name "list")
-                                  [Subscript tmp (Slice (Some (cint idx)) (if Z.eqb upper 0 then None else Some (cint upper)) None)] in
-                     let! a := assign_auto (index :: p) t' sub in
-                     let! b := go r (S index) true in ret (a ++ b)
-               | _ =>
-                   let sub := Subscript tmp (cint (if starred then idx - len else idx)%Z) in
-                   let! a := assign_auto (index :: p) t sub in
-                   let! b := go r (S index) starred in ret (a ++ b)
-               end
-           end) elts 0 false in
-      ret (NamedExpr (ol "assign" (path_str p)) (call (Name "tuple") [value]) :: rest) in
+      let tmp := ol "assign" (path_str p) in
+      let! rest := pattern_go (fun p0 t0 v0 => assign_auto p0 t0 v0) (Name tmp) (Z.of_nat (length elts)) p elts 0 false in
+      ret (NamedExpr tmp (call (Name "tuple") [value]) :: rest) in
     match target with
     | Name i => let! e := get_assign n i value in ret [e]
     | Attribute v a => let! e := assign_attribute v a value in ret [e]
@@ -303,7 +311,8 @@ Definition lower_augassign (n : nsp) (p : path) (target : expr) (op : binop) (va
   | Name i =>
       let! t := get_load_name n [] i in
       let! fb := get_assign n i (BinOp t op v) in
-      ret [aug_expr t op v fb]
+      let! st := get_assign n i (call (Attribute t (aug_op_name op)) [v]) in
+      ret [IfExp (call (Name "hasattr") [t; cstr (aug_op_name op)]) st fb]
   | Subscript par s =>
       let tmps := ol "sllice" (path_str p) in
       let! par' := tr n par in
@@ -442,12 +451,17 @@ Section Stmts.
         | _ => fail ESyntax
         end
     | SAssign targets value =>
-        let! v := tr n value in
-        (fix go (ts : list expr) (k : nat) : res (list expr) :=
-           match ts with
-           | [] => ret []
-           | t :: r => let! a := assign_auto n (k :: p) t v in let! b := go r (S k) in ret (a ++ b)
-           end) targets 0
+        let! v0 := tr n value in
+        let shared := match targets with _ :: _ :: _ => true | _ => false end in
+        let tmp := ol "assign" (path_str p) in
+        let v := if shared then Name tmp else v0 in
+        let! stores :=
+          (fix go (ts : list expr) (k : nat) : res (list expr) :=
+             match ts with
+             | [] => ret []
+             | t :: r => let! a := assign_auto n (k :: p) t v in let! b := go r (S k) in ret (a ++ b)
+             end) targets 0 in
+        ret ((if shared then [NamedExpr tmp v0] else []) ++ stores)
     | SAnnAssign target None => ret []
     | SAnnAssign target (Some value) =>
         let! v := tr n value in assign_auto n (0 :: p) target v
